@@ -1,0 +1,63 @@
+//go:build verif
+
+// Contracts for the verification machinery in /verif (comment-only; excluded from normal builds).
+// Property C22 (partial: rune-offset to byte-offset conversion). Mode int: mathematical integers, every
+// +,-,* carries a no-overflow obligation.
+
+package diff
+
+// rune_w(r): number of bytes of the UTF-8 encoding of r, -1 if r is not a valid code point (RFC 3629;
+// this is the documented behaviour of unicode/utf8.RuneLen).
+// u8pre(a, k): total width of the runes a[0 .. k) (prefix sum, defined by its recursion).
+//@ spec rune_w(r int) int := ite(r < 0, -1, ite(r < 0x80, 1, ite(r < 0x800, 2, ite(r >= 0xD800 && r < 0xE000, -1, ite(r < 0x10000, 3, ite(r <= 0x10FFFF, 4, -1))))))
+//@ spec (declare-fun u8pre ((Array Int Int) Int) Int)
+//@ axiom forall a (Array Int Int), k Int {u8pre(a, k)} :: u8pre(a, k+1) == u8pre(a, k) + rune_w(a[k])
+
+//@ extern utf8.RuneLen
+//@   mode int
+//@   ensures result == rune_w(int(r))
+//@   pure
+//@   trusted
+
+// runesLen(s) is the UTF-8 length of the rune slice s.
+//@ func runesLen
+//@   mode int
+//@   loop 0 invariant -1 <= rangeindex && rangeindex < len(runes)
+//@   loop 0 invariant len == u8pre(arr(runes), off(runes)+rangeindex+1) - u8pre(arr(runes), off(runes))
+//@   loop 0 invariant -(rangeindex+1) <= len && len <= 4*(rangeindex+1)
+//@   ensures[sum]   result == u8pre(arr(runes), off(runes)+len(runes)) - u8pre(arr(runes), off(runes))
+//@   ensures[bound] -len(runes) <= result && result <= 4*len(runes)
+//@   safe
+//@   property C22
+
+// ---- assumed: the LCS core returns well-formed rune-index diffs (recorded in ghost arrays)
+//@ ghost lcs_n Int
+//@ ghost lcs_s (Array Int Int)
+//@ ghost lcs_e (Array Int Int)
+//@ ghost lcs_rs (Array Int Int)
+//@ ghost lcs_re (Array Int Int)
+//@ extern lcs.DiffRunes
+//@   mode int
+//@   ensures len(result) == lcs_n && lcs_n >= 0 && isfresh(result)
+//@   ensures forall i int :: 0 <= i && i < lcs_n ==> result[i].Start == lcs_s[i] && result[i].End == lcs_e[i] && result[i].ReplStart == lcs_rs[i] && result[i].ReplEnd == lcs_re[i]
+//@   ensures forall i int :: 0 <= i && i < lcs_n ==> 0 <= lcs_s[i] && lcs_s[i] <= lcs_e[i] && lcs_e[i] <= len(a) && 0 <= lcs_rs[i] && lcs_rs[i] <= lcs_re[i] && lcs_re[i] <= len(b)
+//@   ensures forall i int :: 0 <= i && i+1 < lcs_n ==> lcs_e[i] <= lcs_s[i+1]
+//@   modifies lcs_n, lcs_s, lcs_e, lcs_rs, lcs_re
+//@   trusted
+
+// diffRunes converts every rune-index diff into an Edit whose Start/End are the byte offsets of the same
+// rune positions: the UTF-8 length of the rune prefix before them (hence on rune boundaries, sorted and
+// non-overlapping like the diffs).
+//@ func diffRunes
+//@   mode int
+//@   loop 0 invariant -1 <= rangeindex && rangeindex < len(diffs) && len(diffs) == lcs_n && len(res) == lcs_n && isfresh(res) && isfresh(diffs)
+//@   loop 0 invariant forall i int :: 0 <= i && i < lcs_n ==> diffs[i].Start == lcs_s[i] && diffs[i].End == lcs_e[i] && diffs[i].ReplStart == lcs_rs[i] && diffs[i].ReplEnd == lcs_re[i]
+//@   loop 0 invariant 0 <= lastEnd && lastEnd <= len(before) && (rangeindex >= 0 ==> lastEnd == lcs_e[rangeindex]) && (rangeindex < 0 ==> lastEnd == 0)
+//@   loop 0 invariant utf8Len == u8pre(arr(before), off(before)+lastEnd) - u8pre(arr(before), off(before))
+//@   loop 0 invariant -lastEnd <= utf8Len && utf8Len <= 4*lastEnd
+//@   loop 0 invariant forall k int :: 0 <= k && k <= rangeindex ==> res[k].Start == u8pre(arr(before), off(before)+lcs_s[k]) - u8pre(arr(before), off(before)) && res[k].End == u8pre(arr(before), off(before)+lcs_e[k]) - u8pre(arr(before), off(before))
+//@   ensures[len]     len(result) == lcs_n
+//@   ensures[offsets] forall k int :: 0 <= k && k < lcs_n ==> result[k].Start == u8pre(arr(before), off(before)+lcs_s[k]) - u8pre(arr(before), off(before)) && result[k].End == u8pre(arr(before), off(before)+lcs_e[k]) - u8pre(arr(before), off(before))
+//@   modifies lcs_n, lcs_s, lcs_e, lcs_rs, lcs_re
+//@   safe
+//@   property C22
